@@ -45,8 +45,10 @@ ASSUMPTIONS = [
     "colors configurations are self-contained: a description refers only to built-in syntaxes or to syntaxes "
     "defined in the same map (a reference to a syntax some component registers later resolves differently "
     "before and after that component's first use; this is by design of lazy registration and not judged)",
-    "objects and formats are not modified between renderings (a PPRecordFmt keeps the widths negotiated for "
-    "its first record: formatter + record is treated as one printable object per negotiated format)",
+    "records are never modified; a table's format is changed only between renderings, never while one of its "
+    "line iterators is suspended (the generator re-reads the table's format object: mixing two formats in one "
+    "rendering is outside the property); a PPRecordFmt keeps the widths negotiated for its first record: "
+    "formatter + record is treated as one printable object",
     "a palette *object* carries the configuration it was created from; an HCommand carries the palette it "
     "captured when it was created (observed and counted, not judged)",
     "texts contain no escape characters",
@@ -61,21 +63,22 @@ REQUIRED_FEATURES = [
 # ------------------------------------------------------------------------------------ alphabet
 _RENDER_Q = {
     "tbl": ["g", "cA", "cB", "nc", "pc", "po"],
+    "tbl2": ["g", "cA"],
     "pp": ["g", "cA", "nc", "pc"],
     "rec1": ["g", "cA", "cB", "nc"],
     "rec2": ["cA", "cB"],
     "recr": ["g", "cB"],
-    "gh": ["g", "cA", "nc"],
+    "gh": ["g", "cA", "cB", "nc"],
     "hd": ["g"],
 }
 _LINES_Q = [("tbl", "cA"), ("pp", "g")]
 _OPEN_Q = [("tbl", "cA"), ("tbl", "cB"), ("tbl", "g"), ("gh", "cB")]
 _CONTROL = [["drop", "A"], ["drop", "B"], ["glob", "A"], ["glob", "B"], ["glob", "N"], ["glob", "-"],
-            ["f"], ["hnew"], ["hp"]]
+            ["fmt", "tbl", "*"], ["fmt", "tbl", "1:1"], ["f"], ["hnew"], ["hp"]]
 # extra operations of the thorough tier (explored to depth 3; the quick alphabet to depth 4)
 _EXTRA_T = ([["r", "tbl", h] for h in ("cN", "pcA", "pcB", "ponc")] +
             [["r", "pp", h] for h in ("cB", "po", "pcB")] +
-            [["r", "gh", h] for h in ("cB", "pc", "po")] +
+            [["r", "gh", h] for h in ("pc", "po")] + [["r", "tbl2", "nc"], ["r", "tbl2", "cB"]] +
             [["r", "rec1", "pc"], ["r", "tbl_s", "cA"], ["r", "tbl_s", "cB"]] +
             [["l", "gh", "cA"], ["l", "tbl", "pc"], ["o0", "tbl", "cA"], ["o0", "pp", "cB"], ["o", "pp", "cA"],
              ["drop", "N"]])
@@ -84,8 +87,9 @@ _EXTRA_T = ([["r", "tbl", h] for h in ("cN", "pcA", "pcB", "ponc")] +
 # the operations explored one level deeper in the thorough tier (histories of exactly 4 operations)
 _CORE = ([["r", "tbl", h] for h in ("g", "cA", "cB", "nc", "pc", "po")] +
          [["r", "pp", "g"], ["r", "pp", "cA"], ["r", "rec1", "g"], ["r", "rec1", "cA"], ["r", "rec1", "cB"],
-          ["r", "gh", "g"], ["r", "gh", "cA"], ["r", "hd", "g"],
+          ["r", "gh", "g"], ["r", "gh", "cB"], ["r", "hd", "g"], ["r", "tbl2", "g"],
           ["o", "tbl", "cA"], ["o", "tbl", "g"], ["f"], ["l", "tbl", "cA"],
+          ["fmt", "tbl", "*"], ["fmt", "tbl", "1:1"],
           ["drop", "A"], ["drop", "B"], ["glob", "A"], ["glob", "B"], ["glob", "N"], ["glob", "-"]])
 
 
@@ -162,13 +166,13 @@ def _reference():
 
 
 def expected(name, key):
-    """Pristine text for object `name` under reference key (spec, variant)."""
+    """Pristine text for object `name` under reference key (format state, spec, variant)."""
     ref = _reference()
-    spec, variant = key
+    fmt, spec, variant = key
     if spec == "nc":
-        return ref[(name, "nc", "std", "explicit")]["whole"]
+        return ref[(name, fmt, "nc", "std", "explicit")]["whole"]
     route = "global" if R.OBJECT_KINDS[name] == "hdoc" else "explicit"
-    return ref[(name, spec, variant, route)]["whole"]
+    return ref[(name, fmt, spec, variant, route)]["whole"]
 
 
 def same_text(a, b):
@@ -178,7 +182,7 @@ def same_text(a, b):
 # ------------------------------------------------------------------------------------ model of enabledness
 def enabled(ops):
     """Cheap model run: is every operation enabled, and is anything observed at the end?"""
-    slots, nopen, hcmd = set(), 0, False
+    slots, open_objs, hcmd = set(), [], False
     for op in ops:
         k = op[0]
         if k == "drop":
@@ -189,9 +193,9 @@ def enabled(ops):
             if op[1] != "-":
                 slots.add(op[1])
         elif k == "f":
-            if not nopen:
+            if not open_objs:
                 return False
-            nopen -= 1
+            open_objs.pop(0)
         elif k == "hnew":
             if hcmd:
                 return False
@@ -199,6 +203,9 @@ def enabled(ops):
         elif k == "hp":
             if not hcmd:
                 return False
+        elif k == "fmt":
+            if op[1] in open_objs:
+                return False               # the object is modified while one of its renderings is in progress
         else:
             how = op[2]
             if how[0] == "c":
@@ -206,8 +213,8 @@ def enabled(ops):
             elif len(how) == 3 and how.startswith("pc"):
                 slots.add(how[2])
             if k in ("o", "o0"):
-                nopen += 1
-    if ops[-1][0] in ("drop", "glob", "hnew") and not nopen:
+                open_objs.append(op[1])
+    if ops[-1][0] in ("drop", "glob", "hnew", "fmt") and not open_objs:
         return False                       # nothing observable at the end: same as the prefix
     return True
 
@@ -234,9 +241,9 @@ def judge(obs, case, acc):
         want = expected(name, key)
         if via == "hp":
             # console help through a long-lived HCommand: judged against the palette it captured
-            if key[0] != case.get("_global_spec", key[0]):
+            if key[1] != case.get("_global_spec", key[1]):
                 acc.feat("hdoc:long-lived-command-shows-colors-of-creation-time")
-        if key[0] in ("nc", "N") and R.ESC in text:
+        if key[1] in ("nc", "N") and R.ESC in text:
             acc.violation(f"C10:escape-in-no-color:{kind}", _pub(case),
                           f"no_color rendering of {name} contains an escape character", text[:600], want[:600])
             label = "viol:escape-in-no-color"
@@ -247,7 +254,8 @@ def judge(obs, case, acc):
         how = "memory" if via in ("whole", "hp") else ("memory-lines" if via == "lines" else "memory-iter")
         acc.violation(
             f"C10:{how}:{kind}:{what}", _pub(case),
-            f"{name} rendered ({via}) for configuration {key[0]}/{key[1]} at the end of this history differs from "
+            f"{name} (format state {key[0]}) rendered ({via}) for configuration {key[1]}/{key[2]} at the end of this "
+            f"history differs from "
             f"the rendering of a pristine process ({what} differ)",
             _diff(text, want), _diff(want, text))
         label = f"viol:{how}:{what}"
@@ -303,7 +311,7 @@ def run_history(ops, acc, w):
         feats.append("env:id()-consulted")
     nontrivial = len(ops) >= 2 and any(op != last for op in ops[:-1])
     label = judge(obs, case, acc)
-    specs = ",".join(sorted({f"{ob[1][0]}/{ob[1][1]}" for ob in obs}))
+    specs = ",".join(sorted({f"{ob[1][1]}/{ob[1][2]}" for ob in obs}))
     acc.case(nontrivial=nontrivial, features=feats,
              outcome=f"{label}:{last[0]}:{specs}:{'reuse' if w.ids.reuses else 'noreuse'}", traces=max(1, len(obs)))
     acc.note_max("live_tracked_palettes", w.ids.max_live)
@@ -342,7 +350,7 @@ def _merge_shard(shard, acc):
     w = H.world()
     ha, hb = _MERGE_PAIRS[pi]
     prefix = _MERGE_PREFIX[xi]
-    n = len(_reference()[("tbl_s", "nc", "std", "explicit")]["lines"])
+    n = len(_reference()[("tbl_s", None, "nc", "std", "explicit")]["lines"])
     for order in H.merge_orders(n, n):
         if not order.startswith(head):
             continue
@@ -370,28 +378,28 @@ def run_merge(prefix, a, b, order, acc, w):
 
 def _static_shard(acc):
     ref = _reference()
-    for key in sorted(ref):
+    for key in sorted(ref, key=repr):
         check_static(key, ref, acc)
     # vacuity guard: the configurations (and the alternative palette classes) must be distinguishable;
     # counted per object -- REQUIRED_FEATURES makes the run fail as vacuous if none is
     for name in R.OBJECT_KINDS:
         route = "global" if R.OBJECT_KINDS[name] == "hdoc" else "explicit"
-        texts = [ref[(name, s, "std", route)]["whole"] for s in R.COLORED_SPECS]
+        texts = [ref[(name, None, s, "std", route)]["whole"] for s in R.COLORED_SPECS]
         if len(set(texts)) == len(texts) and all(R.ESC in t for t in texts):
             acc.feat("static:colored-differs-per-config")
         else:
             acc.feat("static:configs-not-distinguishable:" + name)
         if name in R.HAS_PALETTE_CLASS:
-            if ref[(name, "A", "pc", "explicit")]["whole"] != ref[(name, "A", "std", "explicit")]["whole"]:
+            if ref[(name, None, "A", "pc", "explicit")]["whole"] != ref[(name, None, "A", "std", "explicit")]["whole"]:
                 acc.feat("static:palette-class-differs")
 
 
 def check_static(key, ref, acc):
-    name, spec, variant, route = key
+    name, fmt, spec, variant, route = key
     kind = R.OBJECT_KINDS[name]
     ent = ref[key]
-    plain = ref[(name, "nc", "std", "explicit")]["whole"]
-    case = {"kind": "static", "req": {"obj": name, "spec": spec, "variant": variant, "route": route}}
+    plain = ref[(name, fmt, "nc", "std", "explicit")]["whole"]
+    case = {"kind": "static", "req": {"obj": name, "fmt": fmt, "spec": spec, "variant": variant, "route": route}}
     acc.trans(2 if "lines" in ent else 1)
     feats = ["obj:" + kind, "static:" + ("no_color" if spec in ("nc", "N") else "colored")]
     label = "ok"
@@ -422,7 +430,7 @@ def check_static(key, ref, acc):
                           [x[:120] for x in _diff("\n".join(ent["lines_str"]), whole)][:3], _diff(whole, "")[:3])
             label = "viol:line-object"
     if route == "global" and kind != "hdoc" and spec != "nc":
-        other = ref[(name, spec, variant, "explicit")]["whole"]
+        other = ref[(name, fmt, spec, variant, "explicit")]["whole"]
         feats.append("how:global")
         if not same_text(whole, other):
             acc.violation(f"C10:global-vs-explicit:{kind}", case,
@@ -476,7 +484,7 @@ def replay(case, acc):
                   H.world())
     elif case["kind"] == "static":
         req = case["req"]
-        reqs = [req, {"obj": req["obj"], "spec": "nc", "variant": "std", "route": "explicit"},
+        reqs = [req, {"obj": req["obj"], "fmt": req.get("fmt"), "spec": "nc", "variant": "std", "route": "explicit"},
                 dict(req, route="explicit")]
         if R.OBJECT_KINDS[req["obj"]] == "hdoc":
             reqs[2] = req
